@@ -32,6 +32,9 @@ CHECKS = {
  'C08': dict(cat='model_checking', design='5/C08', technique='TLA+ PDA of the visitor event grammar enumerates well-formed event sequences with right/wrong/absent declared lengths; recorded encoder outputs validated by a TLC trace spec using the independent reference decoders and the RFC 8259 recogniser',
    text='TLC enumerates every complete, grammatical event sequence up to 6 (7) events; the harness pushes each into the real encoders and records output or error; Trace_C08 accepts only an error or an output that the independent TLA+ decoder reads completely back to exactly the pushed value (JSON text: strict JsonText acceptance and documented image). All inputs accepted in the C07 CBOR byte space are additionally decoded and re-written as compact/pretty JSON text, which must be valid RFC 8259.',
    note='Encoders judged: see evidence coverage.encoders. CSV/TOON encoders and typed-array events are not in this check.'),
+ 'C10': dict(cat='model_checking', design='5/C10', technique='TLA+ Limits module (verdict functions per container-opening path, max_items, claimed-length headers and memory bound) enumerated by TLC; verdicts replayed through decoders and encoders; allocation meter and fixed-stack thread as sensors',
+   text='TLC enumerates format x container-opening path x limit x depth around the limit for decoders and encoders, UBJSON max_items x announced counts, and claimed-length headers x payloads, each with the predicted verdict (accept iff depth <= limit; refuse iff count > max_items; claims beyond supply are errors); the harness replays them, measures the allocation peak against the spec bound, and runs copy/compare/dump/destroy of nested values (depth 1024; destroy at 10^6) on a 1 MiB stack.',
+   note='Heap peak and stack use are harness measurements with deliberately loose constants. Limits 0..16 (quick) / ..1024 (thorough).'),
 }
 NA = {}
 
